@@ -174,7 +174,10 @@ static void checkModel(verif::Run& run, const std::vector<mb::BodySpec>& specs, 
                 if (!(dis <= FD_AGREE)) run.count("cref-skipped:richardson-pair-disagrees");
                 else {
                     LD e = 0, cm = 0; for (int i = 0; i < nu; ++i) { e = std::max(e, fabsl((LD)cLib[i] - cr.c[i])); cm = std::max(cm, fabsl(cr.c[i])); }
-                    run.residual("c-vs-lagrangian", (double)(e / cscale), FD_BOUND, where, rep);
+                    // FunctionBased whose rotation functions share coordinates (kind FBCoupled3, sections SX/AX only): the library's
+                    // HDot is wrong there (notes/C02.md); judged under its own key so that nothing else can hide behind it
+                    bool coupledFB = false; for (auto& b : specs) if (b.kind == mb::KFBCoupled3) coupledFB = true;
+                    run.residual(coupledFB ? "c-vs-lagrangian/FunctionBased-rotation-functions-sharing-coordinates" : "c-vs-lagrangian", (double)(e / cscale), FD_BOUND, where, rep);
                     run.count(cm > 1e-6L * cscale ? "cref-compared:nonzero" : "cref-compared:zero");
                     if (run.verbose) { printf(" c_lib vs c_ref (h=%g, disagreement %.3g, scale %.3Lg):\n", FD_H, dis, cscale); for (int i = 0; i < nu; ++i) printf("  [%d] % .15g  % .15Lg  diff % .3Lg\n", i, cLib[i], cr.c[i], (LD)cLib[i] - cr.c[i]); }
                 }
@@ -321,7 +324,7 @@ int main(int argc, char** argv) {
     run.setDeadline(900, 3600);   // idle-machine cost: quick ~260 CPU-s (16 s on 16 cores); generous because the machine is shared
     const bool th = run.thorough();
     for (size_t i = 0; i + 1 < run.extra.size(); ++i) if (run.extra[i] == "--h") FD_H = atof(run.extra[i + 1].c_str());   // calibration only
-    run.rule = "E3: models = section S (every KINDxDIRxFRAMES variant alone on Ground) and level A (every KINDxDIRxFRAMES variant as base/middle/tip/fork-branch of a 3-body tree with companions {Pin,Ball,Free}^2), thorough adds level B (all ordered parent->child pairs) and level C (all triples over 8 code families, chain+fork, DIR^3); x COORD{quaternion,Euler} x MASS(3) x STATE(4: zero, generic, large-angle, zero-velocity); value set = seed%3 (thorough: all 3 for level A). Inside each case: every force pattern {none, unit mobility force on each u, unit spatial force x6 on each body incl. Ground, generic} x routes {operator, realize(Acceleration) via Force::DiscreteForces}, basis+generic udot* for forward(inverse()). The Lagrangian c reference is evaluated for the moving states (generic, large-angle) with the generic mass (quick) / all masses (thorough). distinct = distinct (model,coord,mass,state,valueset); non-trivial = nu>=1";
+    run.rule = "E3: KIND = 19 built-in mobilizers, 5 Custom/FunctionBased mirrors with a constant hinge matrix, FunctionBased with nonlinear coordinate functions and 1..6 mobilities (FBN1..6), Custom helix slider with H(q) from X_FM and HDot from V_FM -- 58 KINDxDIR variants (engine/models.h); models = section S (every variant alone on Ground x all 8 frame pairs incl. the four one-part-only pairs), level G, sections SX/AX (FunctionBased whose rotation functions share coordinates -- own violation key -- alone on Ground x 8 frame pairs and in level-A trees) and level A (every KINDxDIRxFRAMES variant as base/middle/tip/fork-branch of a 3-body tree with companions {Pin,Ball,Free}^2), thorough adds level B (all ordered parent->child pairs) and level C (all triples over 8 code families, chain+fork, DIR^3); x COORD{quaternion,Euler} x MASS(3) x STATE(4: zero, generic, large-angle, zero-velocity); value set = seed%3 (thorough: all 3 for level A). Inside each case: every force pattern {none, unit mobility force on each u, unit spatial force x6 on each body incl. Ground, generic} x routes {operator, realize(Acceleration) via Force::DiscreteForces}, basis+generic udot* for forward(inverse()). The Lagrangian c reference is evaluated for the moving states (generic, large-angle) with the generic mass (quick) / all masses (thorough). distinct = distinct (model,coord,mass,state,valueset); non-trivial = nu>=1";
     run.assumptions = {"continuous values only from the fixed tables in engine/models.h", "trees of at most 3 mobilized bodies", "position/velocity kinematics and N/NInv (used to build J_ref, M_ref and the Lagrangian reference) are themselves checked by C03/C05",
                        "Lagrangian reference not applicable to models containing LineOrientation/FreeLine (non-holonomic speeds): skipped and counted", "finite-difference step 1e-3 in chart coordinates; Richardson pair (h,h/2) must agree to 1e-9 relative or the case is skipped and counted"};
     int64_t modelLimit = -1, modelStride = 1;   // calibration only (marks the run non-exhaustive)
@@ -329,7 +332,11 @@ int main(int argc, char** argv) {
     PROFILE = run.hasFlag("--profile");
     if (modelLimit >= 0 || modelStride > 1 || PROFILE) run.exhaustive = false;
     const int vs0 = (int)(((run.seed % 3) + 3) % 3);
-    mb::LevelA A; mb::LevelB B; mb::LevelC C; mb::LevelG G;
+    mb::LevelA A; mb::LevelB B; mb::LevelC C; mb::LevelG G; mb::LevelS S;
+    // FunctionBased with rotation functions that share coordinates (the unchanged library's HDot is wrong: notes/C02.md): alone on
+    // Ground and as base/middle/tip/fork-branch of level-A trees.  (FBConstRot2, whose H is wrong, is C03's business.)
+    std::vector<std::pair<int, int> > coupledKinds = {{mb::KFBCoupled3, 0}, {mb::KFBCoupled3, 1}};
+    mb::LevelS SX; SX.kd = coupledKinds; mb::LevelA AX; AX.kd = coupledKinds;
     auto section = [&](const std::string& name, int64_t nModels, std::vector<int> valueSets, std::function<std::vector<mb::BodySpec>(int64_t, int)> specsOf) {
         verif::Odometer od;
         od.dim("state", 4); od.dim("mass", 3); od.dim("coord", 2); od.dim("valueset", (int64_t)valueSets.size()); od.dim("model", modelLimit >= 0 ? std::min(modelLimit, nModels) : nModels);
@@ -346,10 +353,12 @@ int main(int argc, char** argv) {
             if (idx % 20011 == 0) run.sample(desc);
         });
     };
-    auto kd = mb::kindDirs();   // section S: every variant alone on Ground (reaches the lone-particle fast path; minimal failing inputs)
-    section("S", (int64_t)kd.size() * 4, th ? std::vector<int>{0, 1, 2} : std::vector<int>{vs0}, [&](int64_t i, int m) { mb::BodySpec b; b.kind = kd[i / 4].first; b.dir = kd[i / 4].second; b.frames = (int)(i % 4); b.mass = m; b.parent = -1; return std::vector<mb::BodySpec>{b}; });
+    // section S: every variant alone on Ground x all 8 frame pairs (reaches the lone-particle fast path; minimal failing inputs)
+    section("S", S.size(), th ? std::vector<int>{0, 1, 2} : std::vector<int>{vs0}, [&](int64_t i, int m) { return S.specs(i, m); });
     section("G", G.size(), {vs0}, [&](int64_t i, int m) { return G.specs(i, m); });   // Ground-attached pairs (lone particle behind nq != nu mobilizers)
     section("A", A.size(), th ? std::vector<int>{0, 1, 2} : std::vector<int>{vs0}, [&](int64_t i, int m) { return A.specs(i, m); });
+    section("SX", SX.size(), {vs0}, [&](int64_t i, int m) { return SX.specs(i, m); });
+    section("AX", AX.size(), {vs0}, [&](int64_t i, int m) { return AX.specs(i, m); });
     if (th) {
         section("B", B.size(), {vs0}, [&](int64_t i, int m) { return B.specs(i, m); });
         section("C", C.size(), {vs0}, [&](int64_t i, int m) { return C.specs(i, m); });
